@@ -82,14 +82,17 @@ class Live(object):
         tmsg.getRandomBytes = lambda n: bytearray([PAD]) * n
         ver = tuple(cfg['ver'])
         self.v13 = ver == (3, 4)
+        # TLS 1.3 runs offer (3,3)..(3,4): since f81c02a a 1.3-only client with the default curve list
+        # (legacy brainpool groups) is refused by the server's ClientHello check (not a C16 matter)
+        minver = (3, 3) if self.v13 else ver
         self.hb = {True: [], False: []}          # payloads handed to the callbacks (client, server)
         self.p = Pair()
         cch, ckey = creds(cfg.get('ccred', 'client-rsa'))
         sch, skey = creds('rsa')
-        cs = settings(minv=ver, maxv=ver, use_heartbeat_extension=cfg['c_hb'],
+        cs = settings(minv=minver, maxv=ver, use_heartbeat_extension=cfg['c_hb'],
                       heartbeat_response_callback=(lambda m: self.hb[True].append(bytes(m.payload))) if cfg['c_cb'] and cfg['c_hb'] else None,
                       cipherNames=[cfg['cipher']])
-        ss = settings(minv=ver, maxv=ver, use_heartbeat_extension=cfg['s_hb'],
+        ss = settings(minv=minver, maxv=ver, use_heartbeat_extension=cfg['s_hb'],
                       heartbeat_response_callback=(lambda m: self.hb[False].append(bytes(m.payload))) if cfg['s_cb'] and cfg['s_hb'] else None,
                       cipherNames=[cfg['cipher']])
         if cfg['nst'] >= 0:
@@ -104,6 +107,8 @@ class Live(object):
         if r != (('ok', None), ('ok', None)):
             raise RuntimeError('handshake failed: %r' % (r,))
         self.c, self.s = self.p.client, self.p.server
+        if tuple(self.c.version) != ver or tuple(self.s.version) != ver:
+            raise RuntimeError('negotiated %r/%r instead of %r' % (self.c.version, self.s.version, ver))
         self.s.client_cert_required = bool(cfg['cert_required'])
         self.c.recordSize = cfg['recsize']
         self.s.recordSize = cfg['recsize']
